@@ -26,8 +26,16 @@ pub enum Action {
     /// Deferred persistence of blocks on / off; make k pending blocks durable.
     Defer { node: u16, on: bool },
     Persist { node: u16, k: u16 },
-    /// Adversary: add Byzantine commit votes to everything, assemble every reachable commit certificate and reveal it to `reveal`.
-    Complete { reveal: u16 },
+    /// Adversary: add Byzantine commit votes to everything, assemble every reachable commit certificate and reveal it to `reveal`
+    /// (`alt_order`: every other node receives the new certificates in reverse order).
+    Complete { reveal: u16, #[serde(default)] alt_order: bool },
+    /// Adversary: certificates that are NOT backed by a quorum (kind 0: all signer bits set, only Byzantine signatures; 1: only Byzantine bits;
+    /// 2: genuine votes plus unsigned extra bits; 3: a timeout certificate made of Byzantine votes with all bits claimed) for a block some correct node voted for,
+    /// wrapped in a new-view message and, if the Byzantine validator leads the view, in a proposal.
+    Forge { kind: u8, to: u16 },
+    /// Adversary tactic "hide the certificate": the current proposal reaches exactly `voters` correct nodes, their votes are completed into a certificate that is
+    /// revealed only to the nodes selected by `reveal`; everybody else times out, the timeout certificate is assembled (Byzantine validators report `lie`) and spread.
+    HideQc { voters: u8, reveal: u16, lie: u8 },
     /// Adversary: add lying Byzantine timeout votes, assemble timeout certificates, reveal.
     CompleteTimeouts { lie: u8, reveal: u16 },
     /// Adversary: a Byzantine leader sends two different proposals to two sets of nodes.
@@ -123,7 +131,42 @@ pub fn gen_case(ch: &mut Choices, p: &Profile) -> SimCase {
     };
     let mut actions = vec![];
     let len = 4 + ch.below(p.len);
+    let all = |rounds: u8| Action::Flush { mask: u16::MAX, kinds: KIND_ALL, limit: 1000, rounds };
     for _ in 0..len {
+        // directed phrases: multi-step choreographies that uniform choice would almost never produce
+        if p.byzantine && ch.chance(1, 5) {
+            match ch.below(4) {
+                0 => {
+                    // a certificate forms with few correct voters, is shown to one node, the rest times out and moves on
+                    actions.push(Action::HideQc { voters: ch.pick(&[3u8, 4, 4, 5, 2]), reveal: 1 << ch.below(6), lie: ch.below(4) as u8 });
+                    if ch.bool() {
+                        actions.push(Action::Equivocate { to_a: u16::MAX, to_b: ch.raw() });
+                    }
+                    actions.push(all(2));
+                    actions.push(Action::Complete { reveal: u16::MAX, alt_order: false });
+                    actions.push(all(1));
+                }
+                1 => {
+                    // an equivocating leader reaches everybody with both proposals; the two possible certificates are revealed in different orders
+                    actions.push(Action::Equivocate { to_a: u16::MAX, to_b: u16::MAX });
+                    actions.push(Action::Flush { mask: u16::MAX, kinds: 2, limit: 1000, rounds: 1 });
+                    actions.push(Action::Complete { reveal: u16::MAX, alt_order: true });
+                    actions.push(all(2));
+                }
+                2 => {
+                    actions.push(Action::Equivocate { to_a: ch.raw(), to_b: ch.raw() });
+                    actions.push(Action::Forge { kind: ch.below(4) as u8, to: mask(ch) });
+                    actions.push(all(2));
+                }
+                _ => {
+                    actions.push(Action::Timeout { mask: u16::MAX });
+                    actions.push(Action::Flush { mask: u16::MAX, kinds: 4, limit: 1000, rounds: 1 });
+                    actions.push(Action::CompleteTimeouts { lie: ch.below(4) as u8, reveal: mask(ch) });
+                    actions.push(all(2));
+                }
+            }
+            continue;
+        }
         let a = match ch.below(40) {
             0..=13 => Action::Flush { mask: mask(ch), kinds: if ch.chance(3, 4) { KIND_ALL } else { ch.below(16) as u8 }, limit: ch.pick(&[1u16, 3, 10, 1000]), rounds: 1 + ch.below(3) as u8 },
             14..=17 => Action::Timeout { mask: mask(ch) },
@@ -134,9 +177,11 @@ pub fn gen_case(ch: &mut Choices, p: &Profile) -> SimCase {
             24 => Action::Advance { node: ch.raw(), ms: ch.pick(&[1u32, 500, 2000, 10_000]) },
             25 if p.crashes => Action::Defer { node: ch.raw(), on: ch.bool() },
             26 if p.crashes => Action::Persist { node: ch.raw(), k: ch.pick(&[1u16, 5, 100]) },
-            27..=30 if p.byzantine => Action::Complete { reveal: if ch.bool() { 0 } else { mask(ch) } },
+            27..=29 if p.byzantine => Action::Complete { reveal: if ch.bool() { 0 } else { mask(ch) }, alt_order: ch.bool() },
+            30 if p.byzantine => Action::Forge { kind: ch.below(4) as u8, to: mask(ch) },
             31 | 32 if p.byzantine => Action::CompleteTimeouts { lie: ch.below(4) as u8, reveal: mask(ch) },
-            33..=35 if p.byzantine => Action::Equivocate { to_a: ch.raw(), to_b: ch.raw() },
+            33 | 34 if p.byzantine => Action::Equivocate { to_a: mask(ch), to_b: mask(ch) },
+            35 if p.byzantine => Action::HideQc { voters: ch.pick(&[3u8, 4, 4, 5, 2]), reveal: 1 << ch.below(6), lie: ch.below(4) as u8 },
             36 if p.byzantine && p.absurd => Action::Absurd { kind: ch.below(6) as u8, to: mask(ch) },
             38 | 39 if p.variants => Action::Variant { msg: ch.raw(), to: ch.raw(), kind: ch.below(6) as u8, arg: ch.below(6) as u8 },
             37 if p.byzantine && p.floods => Action::Flood { byz: ch.below(4) as u8, timeouts: ch.bool(), from_view: ch.pick(&[0u32, 5, 1000]), count: ch.pick(&[3u16, 20, 60]), to: mask(ch) },
@@ -195,6 +240,7 @@ pub struct RunInfo {
     pub flood_msgs: usize,
     pub absurd_msgs: usize,
     pub variants: usize,
+    pub forged: usize,
     pub kinds_matrix: std::collections::BTreeSet<String>,
 }
 
@@ -307,13 +353,30 @@ pub async fn apply(w: &mut World, a: &Action, info: &mut RunInfo) -> Result<(), 
             w.node(i).engine.persist(*k as usize);
             w.progress().await;
         }
-        Action::Complete { reveal } => {
+        Action::Complete { reveal, alt_order } => {
             let new = w.complete_commits();
             if !new.is_empty() && *reveal == 0 {
                 info.hidden_qc = true;
             }
-            for i in nodes_in(w, *reveal) {
-                for m in &new {
+            for (k, i) in nodes_in(w, *reveal).into_iter().enumerate() {
+                let mut order = new.clone();
+                if *alt_order && k % 2 == 1 {
+                    order.reverse();
+                }
+                for m in order {
+                    if w.ready(i) {
+                        w.deliver(i, m, false).await;
+                    }
+                }
+            }
+            w.progress().await;
+            w.reap().await;
+        }
+        Action::Forge { kind, to } => {
+            let ms = w.forge(*kind);
+            info.forged += ms.len();
+            for i in nodes_in(w, *to) {
+                for m in &ms {
                     if w.ready(i) {
                         w.deliver(i, *m, false).await;
                     }
@@ -321,6 +384,76 @@ pub async fn apply(w: &mut World, a: &Action, info: &mut RunInfo) -> Result<(), 
             }
             w.progress().await;
             w.reap().await;
+        }
+        Action::HideQc { voters, reveal, lie } => {
+            // a. the leader of the most advanced view proposes (a Byzantine leader sends one proposal)
+            let correct = w.correct();
+            for i in &correct {
+                if w.ready(*i) {
+                    w.propose(*i).await;
+                }
+            }
+            let top_view = correct.iter().filter_map(|i| w.node(*i).snapshot().map(|s| s.view.0)).max().unwrap_or(0);
+            let mut proposal = (0..w.pool.len()).rev().find(|m| kind_of(&w.pool[*m].msg) == Kind::Proposal && crate::sim::view_of(&w.pool[*m].msg) == top_view);
+            if proposal.is_none() && w.cfg.byz[w.leader(top_view)] {
+                proposal = w.equivocate().first().copied().filter(|m| crate::sim::view_of(&w.pool[*m].msg) == top_view);
+            }
+            if let Some(p) = proposal {
+                // b. it reaches exactly `voters` correct nodes (those that are in that view)
+                let mut got = 0;
+                for i in &correct {
+                    if got < *voters as usize && w.ready(*i) {
+                        let before = w.steps.len();
+                        w.deliver(*i, p, false).await;
+                        if w.steps.get(before).is_some_and(|r| matches!(r.out, crate::sim::StepOut::Handled(zksync_consensus_bft::verif::Outcome::Accepted))) {
+                            got += 1;
+                        }
+                    }
+                }
+                w.progress().await;
+                // c. the certificate is assembled and shown to few
+                let new = w.complete_commits();
+                let revealed = nodes_in(w, *reveal);
+                if !new.is_empty() {
+                    info.hidden_qc = true;
+                }
+                for i in &revealed {
+                    for m in &new {
+                        if w.ready(*i) {
+                            w.deliver(*i, *m, false).await;
+                        }
+                    }
+                }
+                w.progress().await;
+                // d. everybody else times out; their timeout votes (plus lying Byzantine ones) form a certificate
+                let others: Vec<usize> = correct.iter().copied().filter(|i| !revealed.contains(i)).collect();
+                for i in &others {
+                    if w.ready(*i) {
+                        w.timer(*i).await;
+                    }
+                }
+                w.progress().await;
+                let tq = w.complete_timeouts(*lie);
+                if !tq.is_empty() {
+                    info.timeout_qc_formed = true;
+                }
+                for i in &others {
+                    let mut m = 0;
+                    while m < w.pool.len() {
+                        if kind_of(&w.pool[m].msg) == Kind::Timeout && !w.node(*i).delivered.contains(&m) && w.ready(*i) {
+                            w.deliver(*i, m, false).await;
+                        }
+                        m += 1;
+                    }
+                    for m in &tq {
+                        if w.ready(*i) {
+                            w.deliver(*i, *m, false).await;
+                        }
+                    }
+                }
+                w.progress().await;
+                w.reap().await;
+            }
         }
         Action::CompleteTimeouts { lie, reveal } => {
             let new = w.complete_timeouts(*lie);
@@ -344,7 +477,8 @@ pub async fn apply(w: &mut World, a: &Action, info: &mut RunInfo) -> Result<(), 
                 let mut got = [0usize; 2];
                 for (k, set) in [a, b].into_iter().enumerate() {
                     for i in set {
-                        if w.ready(i) && !w.node(i).delivered.contains(&ps[1 - k]) {
+                        // a node may well receive both proposals: only its own phase gate stops it from voting twice
+                        if w.ready(i) {
                             let before = w.steps.len();
                             w.deliver(i, ps[k], false).await;
                             if w.steps.get(before).is_some_and(|r| matches!(r.out, crate::sim::StepOut::Handled(zksync_consensus_bft::verif::Outcome::Accepted))) {
